@@ -52,7 +52,14 @@ class Session:
         return self.cell(st, tag, s)
 
     def run(self, inst, args, st):
-        return self.E.run(inst, args, st)
+        from fv.absint import Unsupported
+        try:
+            return self.E.run(inst, args, st)
+        except Unsupported as e:
+            # a root the interpreter cannot follow is reported by the rule as "no return", never as a pass
+            self.unsupported.append((inst.name, "root", str(e)))
+            self.failed_roots = getattr(self, "failed_roots", []) + [(inst.name, str(e))]
+            return []
 
     def obligations_since(self, n0):
         return [o for o in self.ctx.obl[n0:] if not o.quiet]
